@@ -186,6 +186,14 @@ def groups_for(pid, tr, wd, rng):
             for s in strat:
                 cases.append(case(cfg, adv=s, seed=rng.randrange(1 << 30), deadline=100, interval=4000))
             groups.append(dict(cfg=cfg, expect_all=False, expect_none=False, cases=cases, enumerated=total))
+        # one honest starter, one honest member that never invokes, a Byzantine member speaking for itself and for the absent one:
+        # every set of <= 4 messages of a focused alphabet (announcement / query / confirmation x own tag / the absent member's tag)
+        foc = [Rec(**{"from": 2}, to=1, t=t, tag=tag, view=(1, 2, 3)) for t in ("M", "Q", "R") for tag in (2, 3)]
+        cfg = dict(name="bzabs", Members=[1, 2, 3], Starters=[1], Byz=[2], E=3, AdvSet=foc)
+        strat, total = strategies(wd, cfg, 4, 80 if not big else 400, rng)
+        log("disc bzabs: %d adversarial message sets enumerated by TLC, %d executed" % (total, len(strat)))
+        groups.append(dict(cfg=cfg, expect_all=False, expect_none=False, enumerated=total,
+                           cases=[case(cfg, adv=s, seed=rng.randrange(1 << 30), deadline=100, interval=4000) for s in strat for _ in range(2 if big else 1)]))
         # two honest starters that can only complete together with the Byzantine member
         cfg = dict(name="bz2", Members=[1, 2, 3], Starters=[1, 2], Byz=[3], NonMembers=[9], E=3, AdvSet=alphabet([3], [9], [1, 2], [1, 2], [1, 2, 3], 4))
         strat, total = strategies(wd, cfg, 3 if big else 2, 200 if not big else 8000, rng)
